@@ -6,6 +6,26 @@ HERE = os.path.dirname(os.path.dirname(os.path.abspath(__file__)))
 TRUST = "Trusted: go/types and go/ssa (x/tools v0.29.0) represent the program faithfully; documented pre/post-conditions of reflect, strings, strconv, regexp, sync, container/list. The check analyses /repo's current source on every run and executes nothing from it; unresolved anchors, unrecognised shapes and analyser panics fail the check."
 
 CLAIMED = {
+ "C02": dict(
+   technique="CFG loop-exit discipline of the walkers + path-sensitive abstract interpretation of all rule functions (write counting, clause provenance) + dominance rules on error materialisation (static analysis)",
+   text="Decides the reporting machinery structurally for all inputs: no walker loop that can produce a clause has an exit other than its header (never stops at the first failure); every rule function writes at most one constructed, separator-terminated clause per path, naming the field it was called for; getError evaluates groups first, returns nil iff the buffer is empty and trims exactly one separator; every walking path of Valid returns getError. Does not decide that each individual verdict is right (C01/C05/C03).",
+   ref="DESIGN.md §4 C02"),
+ "C03": dict(
+   technique="abstract interpretation of the four walkers with a reflect kind-set typestate: zero-skip dominance, required truth table, rule-key enumeration, interface unwrapping (static analysis)",
+   text="For every path of one pass of each walker: rule functions are only called on a value proved non-empty; the built-in required writes exactly one clause unless the value was proved non-empty (and non-zero length where collections are supported) and none otherwise, including via the nested descent; map/URL walkers enumerate rule keys (missing entries); map elements are unwrapped from interfaces. One listed known finding (interface-typed map values).",
+   ref="DESIGN.md §4 C03"),
+ "C05": dict(
+   technique="abstract interpretation of every content rule function compared with specification formulas over library predicates + regular-language equivalence by automata product + symbolic layout comparison (static analysis)",
+   text="Per rule and kind, on every path the verdict equals a frozen specification formula over the trusted predicates actually consulted (which pattern, ParseIP/To4, time.Parse with the exact layout for default and custom separators, HasPrefix/HasSuffix argument order, json.Valid, Stat/IsDir, ==/Contains for in/include); the languages of the phone/email/idcard/int/float patterns are compared with reference languages exactly (decidable); ToStr's rendering table is checked per type. The quote-aware option splitting and the escaped-quote scan of re are data-dependent loops and are not decided.",
+   ref="DESIGN.md §4 C05"),
+ "C13": dict(
+   technique="kind-set typestate over all paths of entry points, walkers, group evaluation and rule functions (reflect preconditions as proof obligations) + bounds/nil/assert obligations (static analysis)",
+   text="Every reflect call reachable from the four entry points is checked against its documented precondition for every kind the receiver may have there (input = any kind, nil included; rule text opaque); reachable index/slice expressions, pointer dereferences of input-derived pointers, unchecked assertions and nil-map stores are proof obligations discharged from dominating guards. A dropped guard leaves an undischarged obligation however exotic the triggering input.",
+   ref="DESIGN.md §4 C13"),
+ "C15": dict(
+   technique="abstract interpretation of every rule function (custom-message diamond), regex language check of the CJK pattern, dependency rule on the extractor (static analysis)",
+   text="On every path of every rule function the default text is written only when the rule's own custom message is empty, and otherwise exactly that message with the same object, field and input; label selection and the extractor's clause independence/bounds are decided structurally. Exact extractor output on look-alike text is not decided.",
+   ref="DESIGN.md §4 C15"),
  "C01": dict(
    technique="path-sensitive abstract interpretation of the rule functions over a finite order-class/sign/kind domain, exhaustive, compared with a specification table (static analysis)",
    text="Every size rule x reflect kind x order class of the measure against each bound x bound sign x custom-message presence is enumerated completely in a finite abstract domain (no concrete values): the verdict the code computes must equal the specification table, the measure must be the documented one, and bound conversions must preserve order. Exact boundaries, signedness hazards and missing kinds are decided for all values, not sampled. It decides the rule functions; which kinds the entry points pass through is C18/C03.",
